@@ -169,10 +169,10 @@ pub fn mutate(r: &mut Rng, b: &[u8], other: &[u8]) -> (&'static str, Vec<u8>) {
 /// value of every 8/4/2-byte big-endian window (binary search); smallest byte
 /// values left to right; shortest prefix again.
 /// `budget` bounds the number of predicate calls. `numeric_only` skips chunk
-/// removal, so that no big-endian field of the candidate ever exceeds the
-/// corresponding field of the input (used for allocation witnesses, where a
+/// removal and the window search, so that no big-endian field of the candidate ever exceeds the
+/// corresponding field of the input (truncation and lowering single bytes are monotone) (used for allocation witnesses, where a
 /// shifted length field could demand an allocation that aborts the process).
-pub fn minimise(input: &[u8], mut bad: impl FnMut(&[u8]) -> bool, budget: usize, full_scan: bool, numeric_only: bool) -> Vec<u8> {
+pub fn minimise(input: &[u8], mut bad: impl FnMut(&[u8]) -> bool, budget: usize, full_scan: bool, numeric_only: bool, truncate_only: bool) -> Vec<u8> {
     let mut cur = input.to_vec();
     let mut calls = 0usize;
     // 1. shortest prefix
@@ -187,7 +187,7 @@ pub fn minimise(input: &[u8], mut bad: impl FnMut(&[u8]) -> bool, budget: usize,
         }
     }
     // 2. remove chunks (right to left)
-    if !numeric_only {
+    if !numeric_only && !truncate_only {
         for w in [32usize, 8, 4, 2, 1] {
             let mut i = cur.len();
             while i >= w && calls < budget {
@@ -204,8 +204,9 @@ pub fn minimise(input: &[u8], mut bad: impl FnMut(&[u8]) -> bool, budget: usize,
             }
         }
     }
-    // 3. smallest window values (binary search, keeps only verified candidates)
-    for w in [8usize, 4, 2] {
+    // 3. smallest window values (binary search, keeps only verified candidates); not field-monotone
+    // (a window may straddle a field boundary), hence skipped in numeric_only mode
+    for w in if numeric_only || truncate_only { vec![] } else { vec![8usize, 4, 2] } {
         let mut off = 0;
         while off + w <= cur.len() && calls + 70 < budget {
             let hi0 = read_be(&cur, off, w);
@@ -227,8 +228,9 @@ pub fn minimise(input: &[u8], mut bad: impl FnMut(&[u8]) -> bool, budget: usize,
             off += 1;
         }
     }
-    // 4. smallest byte values, left to right
-    for i in 0..cur.len() {
+    // 4. smallest byte values, left to right (lowering a length byte can shift the rest of the
+    // parse, so this is skipped in truncate_only mode)
+    for i in 0..(if truncate_only { 0 } else { cur.len() }) {
         let orig = cur[i];
         if orig == 0 {
             continue;
